@@ -49,7 +49,8 @@ if os.path.isdir(sd):
         how = "; ".join(l for l in v.get("check_lines", []) if l.startswith("violation"))[:150]
         rows.append((n, m["property"], m.get("summary", ""), m.get("needs", ""), caught, how, m.get("note", "")))
 nc = sum(1 for r in rows if r[4])
-out.append(f"### 0.3 Seeded breakages written by independent sub-agents ({len(rows)} confirmed, {nc} caught by the quick tier)\n")
+nadj = sum(1 for r in rows if not r[4] and json.load(open(os.path.join(sd, r[0], 'meta.json'))).get('adjudication'))
+out.append(f"### 0.3 Seeded breakages written by independent sub-agents ({len(rows)} confirmed, {nc} caught by the quick tier, {nadj} adjudicated as outside the statement)\n")
 out.append("Each was produced by a fresh sub-agent that saw only the property text and a scratch worktree, then confirmed by `tools/verify_seeded.py` "
            "(demo passes on the clean tree, fails with the patch; the existing tests of the touched packages still pass; then `./check <ID> --tier quick` against the patched tree).\n")
 out.append("| seeded change | what it does | needs | caught by `./check` (quick) | first violation signature / note |")
